@@ -94,7 +94,7 @@ def _task_inner(args):
             c = _STATE["contracts"][idx]
             k = extra
             old, new, expect = c.canaries[k]
-            r = api.symbolic_run(c, tier, mutate=make_mutator(c, old, new))
+            r = api.symbolic_run(c, tier, mutate=make_mutator(c, old, new), stop_on=expect)
             return kind, (idx, k), r.asdict()
         if kind == "extra":
             fn = _STATE["extra"][idx]
